@@ -6,7 +6,8 @@ def run(run):
     hc.pair_helpers(run, clauses=['table', 'name', 'duals'], label='pair-helpers-tables')
     from harness import models
     n = 22 if run.tier == 'quick' else 110
-    hc.solve_scenarios(run, 'C17', [('dual_tables', (name, seed)) for (name, seed) in models.programs(run.seed, n)], 'rt-solve-dual-tables',
+    hc.solve_scenarios(run, 'C17', [('dual_tables', (name, seed)) for (name, seed) in models.programs(run.seed, n)] +
+                       [('dual_tables', (name, seed, True)) for (name, seed) in models.programs(run.seed + 1, 12)], 'rt-solve-dual-tables',
                        'after a real solve of seeded programs over 11 templates: for every leaf function each per-condition table is a table with one column per '
                        'sample, the dual table has the same shape and its (i,j) cell is the multiplier of the constraint in that cell (0 elsewhere), every class '
                        'constraint sits in a table cell and has a name')
